@@ -411,7 +411,6 @@ impl<E: FieldElement> OpFlags<E> {
 
         // Flag if the top element in the stack should be binary or not.
         let top_binary = degree7_op_flags[5] // OR op
-            + degree7_op_flags[15]  // EXPACC op
             + degree7_op_flags[36]  // AND op
             + degree7_op_flags[37]  // OR op
             + degree7_op_flags[42]  // CSWAP op
